@@ -12,6 +12,7 @@ CHECKS = {
             {"test": "TestC01Enum3", "rapid": False, "quick": 0, "thorough": 0, "shards": 16, "only_tier": "thorough"},
             {"test": "TestC01Enum3", "rapid": False, "quick": 0, "thorough": 0, "quick_shards": 4, "only_tier": "quick", "env": {"VERIF_C01_STRIDE3": "40"}},
             {"test": "TestC01", "quick": 60000, "thorough": 300000, "shards": 16, "quick_shards": 2},
+            {"test": "TestC01Scale", "quick": 400, "thorough": 1500, "shards": 16, "quick_shards": 2},
         ],
         "assumptions": [
             "reference matcher of DESIGN.md section 4 is the meaning of the core language; cells the documents leave open are discarded and counted",
@@ -29,12 +30,14 @@ CHECKS = {
     "C03": {
         "parts": [
             {"test": "TestC03", "quick": 12000, "thorough": 200000, "shards": 16, "quick_shards": 2},
+            {"test": "TestC03Scale", "quick": 500, "thorough": 2000, "shards": 16, "quick_shards": 2},
         ],
         "assumptions": ["one search command per program; column claim checked on ASCII texts only; runs above 30000 VM instructions are discarded and counted"],
     },
     "C04": {
         "parts": [
             {"test": "TestC04", "quick": 2500, "thorough": 30000, "shards": 16, "quick_shards": 2},
+            {"test": "TestC04Scale", "quick": 200, "thorough": 1000, "shards": 16, "quick_shards": 2},
         ],
         "assumptions": ["`find all` itself is decided by C01; runs above 60000 VM instructions are discarded and counted"],
     },
